@@ -172,6 +172,23 @@ impl<T: Qcow2IoOps> Qcow2Dev<T> {
     ) -> Qcow2Result<usize> {
         match mapping.cluster_offset {
             Some(off) => {
+                // A freshly allocated cluster is mapped before it has been
+                // zeroed: wait for whoever is zeroing it right now, and if
+                // nobody has started yet nothing has been written to it
+                // either, so it still reads as zeros - never as what the host
+                // cluster happened to hold before
+                let new_cluster = {
+                    let map = self.new_cluster.read().await;
+                    map.get(&(off >> self.info.cluster_bits())).cloned()
+                };
+                if let Some(cluster) = new_cluster {
+                    let zeroed = cluster.read().await;
+                    if !*zeroed {
+                        zero_buf!(buf);
+                        return Ok(buf.len());
+                    }
+                }
+
                 let done = self.call_read(off + off_in_cls as u64, buf).await?;
 
                 // The host file may end inside this cluster if the tail of
